@@ -174,7 +174,7 @@ func r3HookErrs(c *core.Ctx, r *core.Reporter) {
 			}
 			// the same two results packaged in a struct: { errs, finish }
 			fieldIdx := -1
-			if idx < 0 && sig.Results().Len() == 1 {
+			if idx < 0 && sig.Results().Len() == 1 && cc.StaticCallee() != nil {
 				if st, ok := derefT(sig.Results().At(0).Type()).Underlying().(*types.Struct); ok {
 					for i := 0; i < st.NumFields(); i++ {
 						if isFormattedErrSlice(st.Field(i).Type()) {
